@@ -371,5 +371,20 @@ def generate(repo, emit, src, func_body):
     emit('exception_error_exits', None if val is None else
          'Definition exception_error_exits : bool := %s.   (* source: Exception_Error ends in exit(EXIT_FAILURE), nothing else leaves it *)' % val)
 
+    # GC_Start / GC_Stop only flip gc->running: they leave the pending list of a sweep in progress alone
+    # (a destructor may open a stop/start window of its own from inside the finaliser loop).  Accepted: any
+    # body that mentions neither freelist nor freenum nor entries/nitems/nslots and calls no function.
+    gst = func_body(gc, r'static\s+void\s+GC_Start\s*\(var self\)\s*\{')
+    gsp = func_body(gc, r'static\s+void\s+GC_Stop\s*\(var self\)\s*\{')
+    keep = None
+    if gst and gsp:
+        def quiet(b):
+            flat = re.sub(r'\s+', ' ', b)
+            return (re.search(r'\b(freelist|freenum|entries|nitems|nslots|mitems)\b', flat) is None
+                    and re.search(r'[A-Za-z_]\w*\s*\(', flat) is None)
+        keep = 'true' if (quiet(gst) and quiet(gsp) and has(gst, r'gc->running = true;') and has(gsp, r'gc->running = false;')) else 'false'
+    emit('gc_start_stop_keep_pending', None if keep is None else
+         'Definition gc_start_stop_keep_pending : bool := %s.   (* source: GC_Start / GC_Stop touch gc->running only *)' % keep)
+
     emit('gc_life_shape', 'Definition gc_life_shape : bool := %s.\n(* shapes that no longer match: %s *)'
          % ('true' if not failed else 'false', '; '.join(failed) if failed else 'none'))
